@@ -491,10 +491,71 @@ for r in res:
     ck.require(ex, 'B4_commit_is_one_critical_section', r.pc, None, z3.BoolVal(bool(one_hold and outcome)), wit, lambda m, w: 'commit-not-atomic')
 ex.extra_models.clear()
 ex.extra_models.update(b4_saved)
+
+# ------------------------------------------------------------------ B5 a replica accepts a block only with a matching state root
+ck.declare('B5_replica_checks_the_state_root', 'TensorStateMachine::apply_block and apply_entry with 1 transaction; the recomputed root, the header root, the fast-path decision and Chain::append symbolic',
+           'Ok => the root recomputed after applying the transactions equals the header\'s state_root, the block was appended and nothing was restored; '
+           'a mismatching root or a refused append => Err and the pre-image restored')
+b5_saved = dict(ex.extra_models)
+ROOTC = [z3.BitVec(f'computed_root.{i}', 8) for i in range(32)]
+ex.extra_models.update({
+    'TensorStore::snapshot_bytes': note('snapshot', lambda c: _ok(Seq('u8', []), 'Result<Vec<u8>, SnapshotError>')),
+    'TensorStore::restore_from_bytes': note('restore', lambda c: _ok(UNIT, 'Result<(), SnapshotError>')),
+    'TensorStateMachine::apply_transaction': note('apply', lambda c: _ok(UNIT, 'Result<(), ChainError>')),
+    'compute_state_root': note('state_root', lambda c: _ok(Seq('u8', [Int(x, False) for x in ROOTC]), 'Result<[u8; 32], ChainError>')),
+    'state_root::compute_state_root': note('state_root', lambda c: _ok(Seq('u8', [Int(x, False) for x in ROOTC]), 'Result<[u8; 32], ChainError>')),
+    'TensorStateMachine::can_fast_path': lambda c: z3.Bool('fast_path'),
+    'TensorStateMachine::append_fast': note('append', sym_result('append', UNIT, 'Result<(), ChainError>')),
+    'TensorStateMachine::append_full': note('append', sym_result('append', UNIT, 'Result<(), ChainError>')),
+    'TensorStateMachine::track_embedding': lambda c: UNIT, 'TensorStateMachine::apply_config_change': lambda c: UNIT,
+    '<Block as Clone>::clone': lambda c: deref(c.st, c.args[0]),
+})
+replica_paths = 0
+for entry in ('apply_block', 'apply_entry'):
+    st = ex.new_state()
+    st.roots['store'] = Struct('TensorStore', {'kv': Map('std::string::String', 'TensorData', [], [])})
+    hroot = sym32('header_root')
+    hdr = Struct('BlockHeader', {F('BlockHeader', 'state_root'): Seq('u8', [Int(x, False) for x in hroot])}, lazy='RB')
+    blk = Struct('Block', {F('Block', 'header'): hdr, F('Block', 'transactions'): Seq('Transaction', [Struct('Transaction', {}, lazy='rtx0')])}, lazy='RB')
+    sm = Struct('TensorStateMachine', {}, lazy='SM')
+    if entry == 'apply_block':
+        args = [ref(sm), ref(blk)]
+    else:
+        le = Struct('LogEntry', {F('LogEntry', 'block'): blk, F('LogEntry', 'config_change'): none('Option<ConfigChange>')}, lazy='LE')
+        args = [ref(sm), ref(le)]
+    res = run(st, 'TensorStateMachine::' + entry, args)
+    ck.note_path_problem(res, entry)
+    for r in res:
+        wit = lambda m, entry=entry: {'chain_op': 'replica_apply', 'entry': entry, 'root_matches': all(mval(m, a) == mval(m, b) for a, b in zip(hroot, ROOTC)),
+                                      'differs_at': [i for i, (a, b) in enumerate(zip(hroot, ROOTC)) if mval(m, a) != mval(m, b)][:4],
+                                      'append_ok': bool(mval(m, z3.Bool('append_ok')))}
+        if r.status == 'panic':
+            ck.require(ex, 'B5_replica_checks_the_state_root', r.pc, None, z3.BoolVal(False), wit, lambda m, w: 'replica-panic')
+            continue
+        if r.status != 'return':
+            continue
+        kinds = [x[0] for x in r.st.notes if x[0] in ('snapshot', 'apply', 'state_root', 'append', 'restore')]
+        if 'state_root' not in kinds:
+            continue
+        replica_paths += 1
+        same = eq32(hroot, ROOTC)
+        if r.retval.variant == 'Ok':
+            ck.require(ex, 'B5_replica_checks_the_state_root', r.pc, None, z3.And(same, z3.BoolVal('append' in kinds and 'restore' not in kinds)), wit, lambda m, w: 'replica-accepts-wrong-root')
+        else:
+            ck.require(ex, 'B5_replica_checks_the_state_root', r.pc, None, z3.BoolVal('restore' in kinds), wit, lambda m, w: 'replica-refuses-without-restoring')
+ex.extra_models.clear()
+ex.extra_models.update(b5_saved)
+if replica_paths == 0:
+    ck.inconclusive.append('B5 vacuous: no path recomputed a state root')
 if committed_paths == 0:
     ck.inconclusive.append('B4 vacuous: no path of commit took a pre-image')
 
 for v in ck.violations:
+    if v['witness'].get('chain_op') == 'replica_apply':
+        rep = Replay.call({'op': 'chain_replica_apply', **v['witness']})
+        v['native'] = rep
+        v['replayed'] = rep.get('violates')
+        continue
     if v['witness'].get('chain_op') == 'commit_race':
         rep = Replay.call({'op': 'chain_commit_race'})
         v['native'] = rep
@@ -503,6 +564,6 @@ for v in ck.violations:
     rep = Replay.call({'op': 'chain_step', **v['witness']})
     v['native'] = rep
     v['replayed'] = rep.get('violates')
-ck.functions += ['TensorChain::commit', 'block::merkle_root', 'Chain::append', 'Chain::verify_chain', 'Chain::get_block_at', 'Chain::store_block', 'Chain::save_height', 'Block::verify_chain', 'Block::verify_tx_root', 'chain::block_key']
+ck.functions += ['TensorStateMachine::apply_block', 'TensorStateMachine::apply_entry', 'TensorChain::commit', 'block::merkle_root', 'Chain::append', 'Chain::verify_chain', 'Chain::get_block_at', 'Chain::store_block', 'Chain::save_height', 'Block::verify_chain', 'Block::verify_tx_root', 'chain::block_key']
 if __name__ == '__main__':
     ck.finish()
